@@ -77,11 +77,13 @@ func reduced() []kvx.Op {
 		{K: "N", Recs: []kvx.RecIn{{Key: "a", Val: 2}, {Key: "a", Val: 1}}},
 		{K: "N", Recs: []kvx.RecIn{{Key: "a", Val: 2}, {Key: "b", Val: 2, Exp: "1h"}}},
 		{K: "N", Recs: []kvx.RecIn{{Key: "b", Val: 2, Exp: "-1h"}, {Key: "a", Val: 0}}},
+		{K: "N", Recs: []kvx.RecIn{{Key: "a", Val: 2, Exp: "1h"}, {Key: "a", Val: 1}}}, // same key: first with, then without expiration
 		{K: "S", Key: "a", Ver: "cur", Val: 2},
 		{K: "S", Key: "a", Ver: "old", Val: 1, Exp: "1h"},
 		{K: "S", Key: "a", Ver: "unk", Val: 2},
 		{K: "S", Key: "a", Ver: "cur", Val: 0, Exp: "-1h"},
 		{K: "S", Key: "b", Ver: "cur", Val: 2},
+		{K: "S", Key: "b", Ver: "empty", Val: 2}, // the zero value of Record.Version
 		{K: "D", Key: "a"},
 		{K: "D", Key: "b"},
 		{K: "L", Pat: "*"},
@@ -90,7 +92,14 @@ func reduced() []kvx.Op {
 	}
 }
 
-func enumerate(depth int, alpha []kvx.Op, f func([]kvx.Op)) {
+// writes reports whether the step changes an empty storage
+func writes(o kvx.Op) bool { return o.K == "C" || o.K == "P" || o.K == "N" }
+
+// enumerate calls f with every sequence of the given depth over alpha; with writeFirst only with those
+// whose first step changes the empty storage (a sequence that starts with a read, a Delete or a
+// CasByVersion on the empty storage is that no-op followed by a shorter sequence, and all shorter
+// sequences are enumerated separately)
+func enumerate(depth int, alpha []kvx.Op, writeFirst bool, f func([]kvx.Op)) {
 	cur := make([]kvx.Op, depth)
 	var rec func(i int)
 	rec = func(i int) {
@@ -99,6 +108,9 @@ func enumerate(depth int, alpha []kvx.Op, f func([]kvx.Op)) {
 			return
 		}
 		for _, o := range alpha {
+			if i == 0 && writeFirst && !writes(o) {
+				continue
+			}
 			cur[i] = o
 			rec(i + 1)
 		}
@@ -188,24 +200,24 @@ func main() {
 	emit("inmem", []kvx.Op{{K: "N", Recs: []kvx.RecIn{{Key: "a", Val: 2}, {Key: "b", Val: 2}}}, {K: "L", Pat: "[!a]"}}, "")
 
 	// 1. exhaustive: every sequence of depth d over the reduced alphabet, on both backends
-	depth := 3
 	alpha := reduced()
+	enumerate(1, alpha, false, func(ops []kvx.Op) { emit("both", ops, "") })
+	enumerate(2, alpha, false, func(ops []kvx.Op) { emit("both", ops, "") })
+	enumerate(3, alpha, !thorough, func(ops []kvx.Op) { emit("both", ops, "") })
 	if thorough {
-		depth = 4
-		alpha = alpha[:0]
-		for i, o := range reduced() { // depth 4 over 13 of the 22 steps
+		sub := alpha[:0:0]
+		for i, o := range alpha { // depth 4 over a subset of the steps, first step a write
 			if i%2 == 0 || o.K == "S" {
-				alpha = append(alpha, o)
+				sub = append(sub, o)
 			}
 		}
-		enumerate(3, reduced(), func(ops []kvx.Op) { emit("both", ops, "") })
+		enumerate(4, sub, true, func(ops []kvx.Op) { emit("both", ops, "") })
 	}
-	enumerate(depth, alpha, func(ops []kvx.Op) { emit("both", ops, "") })
 
 	// 2. random sequences over the full alphabet
-	nrand, n := 1500, 30
+	nrand, n := 1000, 30
 	if thorough {
-		nrand = 20000
+		nrand = 10000
 	}
 	for i := 0; i < nrand; i++ {
 		r := prng.New(fl.Seed, "C03", uint64(i))
@@ -216,7 +228,8 @@ func main() {
 		emit("both", ops, "")
 	}
 	s.Close("every case is one operation sequence run on inmem.New() and on the Redis client over miniredis (two traces). "+
-		"exhaustive: all sequences of depth 3 (thorough: also depth 4 over a 13-step subset) over a 22-step reduced alphabet; random: seeded sequences of 30 steps over "+
+		"exhaustive: all sequences of depth 1, 2 and 3 over a 24-step reduced alphabet (quick: depth 3 only with a first step that changes the empty storage - a leading no-op adds nothing to the shorter sequence behind it; "+
+		"thorough: every depth-3 sequence, and depth 4 over a 15-step subset with a writing first step); random: seeded sequences of 30 steps (quick 1000, thorough 10000) over "+
 		"keys {a,b,ab,k/1} x values {nil,\"\",x,300 bytes} x expiry {none,+1h,-1h} x 7 patterns, repeated keys in GetMany/PutMany, CAS with current/stale/unknown/empty version. "+
 		"distinct = by content hash; non-trivial = at least 3 operations with at least one write and one read", false)
 }
